@@ -3,8 +3,8 @@
 package hwmon
 
 // Contracts for package hwmon, read by /verif/govc (comment-only file, compiled only with -tags verif).
-// How libsensors features become HwMonController values (GetChips, GetFans, GetTempSensors: cgo, Sscanf on
-// feature names) is outside the proof; the contracts below start from an arbitrary list of controllers.
+// The binding functions start from an arbitrary list of controllers; device discovery (GetChips, GetFans,
+// GetTempSensors) is under contract further down, relative to what libsensors reports (assumed externs).
 
 //@ ghost var reMatch gmap[string]gmap[string]bool
 //@ ghost var reBad gset[string]
@@ -89,8 +89,8 @@ package hwmon
 //@   modifies nothing
 //@   trusted "reads <feature>_label; the label text plays no role in binding"
 
-//@ pure firstTempIn(ss []gosensors.SubFeature, m int) bool = 0 <= m && m < len(ss) && ss[m].Type == gosensors.SubFeatureTypeTempInput && (forall q int :: 0 <= q && q < m ==> ss[q].Type != gosensors.SubFeatureTypeTempInput)
-//@ pure tempBound(c gosensors.Chip, j int, in string) bool = 0 <= j && j < len(featsOf(c)) && featsOf(c)[j].Type == gosensors.FeatureTypeTemp && (exists m int :: firstTempIn(subsOf(featsOf(c)[j]), m) && in == pathjoin(c.Path, subsOf(featsOf(c)[j])[m].Name))
+//@ pure isTempIn(ss []gosensors.SubFeature, m int) bool = 0 <= m && m < len(ss) && ss[m].Type == gosensors.SubFeatureTypeTempInput
+//@ pure tempBound(c gosensors.Chip, j int, in string) bool = 0 <= j && j < len(featsOf(c)) && featsOf(c)[j].Type == gosensors.FeatureTypeTemp && (exists m int :: isTempIn(subsOf(featsOf(c)[j]), m) && in == pathjoin(c.Path, subsOf(featsOf(c)[j])[m].Name))
 
 //@ func GetTempSensors
 //@   params (chip)
@@ -158,12 +158,15 @@ package hwmon
 //@   trusted "regexp.FindString on the device path"
 
 //@ pure fansOf(c gosensors.Chip, fs []fans.HwMonFan) bool = forall i int :: 0 <= i && i < len(fs) ==> fs[i].Index == i + 1 && fs[i].Config.HwMon != nil && fs[i].Config.HwMon.Index == i + 1 && fanCfgOK(c, fs[i].Config.HwMon) && (exists j int :: fanBound(c, j, fs[i].Config.HwMon))
-//@ pure sensorsOf(c gosensors.Chip, m map[int]*sensors.HwmonSensor) bool = forall k int :: k in m ==> 1 <= k && k <= len(m) && m[k] != nil && m[k].Index == k && (exists j int :: tempBound(c, j, m[k].Input))
+//@ pure sensorsOf(c gosensors.Chip, m map[int]*sensors.HwmonSensor) bool = forall k int :: k in m ==> 1 <= k && m[k] != nil && m[k].Index == k && (exists j int :: tempBound(c, j, m[k].Input))
 
 //@ func GetChips
 //@   props C17
-//@   ensures[C17.chips] forall n int :: 0 <= n && n < len(result) ==> result[n] != nil && (exists i int :: 0 <= i && i < len(detectedChips()) && result[n].Path == detectedChips()[i].Path && fansOf(detectedChips()[i], result[n].Fans) && sensorsOf(detectedChips()[i], result[n].Sensors))
+//@   ensures[C17.chips.fans]    forall n int :: 0 <= n && n < len(result) ==> result[n] != nil && (exists i int :: 0 <= i && i < len(detectedChips()) && result[n].Path == detectedChips()[i].Path && fansOf(detectedChips()[i], result[n].Fans))
+//@   ensures[C17.chips.sensors] forall n int :: 0 <= n && n < len(result) ==> result[n] != nil && (exists i int :: 0 <= i && i < len(detectedChips()) && result[n].Path == detectedChips()[i].Path && sensorsOf(detectedChips()[i], result[n].Sensors))
 //@   modifies nothing
 //@   loop 1 "for i := 0; i < len(chips); i++"
 //@     invariant 0 <= i && i <= len(chips) && chips == detectedChips() && (arrayOf(list) == 0 || arrayOf(list) >= old(W))
-//@     invariant forall n int :: 0 <= n && n < len(list) ==> list[n] != nil && fresh(list[n]) && (exists ii int :: 0 <= ii && ii < i && list[n].Path == chips[ii].Path && fansOf(chips[ii], list[n].Fans) && sensorsOf(chips[ii], list[n].Sensors))
+//@     invariant forall n int :: 0 <= n && n < len(list) ==> list[n] != nil && fresh(list[n])
+//@     invariant forall n int :: 0 <= n && n < len(list) ==> (exists ii int :: 0 <= ii && ii < i && list[n].Path == chips[ii].Path && fansOf(chips[ii], list[n].Fans))
+//@     invariant forall n int :: 0 <= n && n < len(list) ==> (exists ii int :: 0 <= ii && ii < i && list[n].Path == chips[ii].Path && sensorsOf(chips[ii], list[n].Sensors))
